@@ -180,7 +180,7 @@ func (qc queueCaller) PipelineRecv(ctx context.Context, transform []capnp.Pipeli
 			path:  clientPathFromTransform(transform),
 			Recv:  r,
 		})
-		basis := len(qc.aq.q) - 1
+		basis := len(qc.aq.q) // index in bases: bases[0] is the original answer, q[i] is bases[i+1]
 		qc.aq.mu.Unlock()
 		return queueCaller{aq: qc.aq, basis: basis}
 	}
